@@ -40,7 +40,7 @@ from __future__ import annotations
 
 import ast
 
-from ..model import ancestors, enclosing_stmt, unparse, walk_no_nested
+from ..model import ancestors, enclosing_stmt, unparse
 from ..selftest import V
 from ._util_E import (
     coexec,
@@ -1103,7 +1103,13 @@ VARIANTS = [
     V("replace: stale predecessor entry of the successors kept", FILE, f"{G}.replace", "self._predecessors[succ].remove(old_node)\n        ", "", "R1"),
     V("replace: wrong variable in mirrored removal", FILE, f"{G}.replace", "self._successors[pred].remove(old_node)", "self._successors[pred].remove(new_node)", "R1"),
     V("promote: incoming edges kept in predecessor view", FILE, f"{DAG}.promote_to_source", "self._predecessors[node].discard(pred)\n        ", "", "R1"),
-    V("uninterpretable mutation (update) is refused", FILE, f"{G}.add", "self._successors[u].add(v)", "self._successors[u].update({v})", "R1"),
+    # a mutation the pairing cannot read elementwise is a *finding* of R1 (the mirror cannot be established), not an analysis error
+    V("bulk update of an adjacency set is reported as unpaired", FILE, f"{G}.add", "self._successors[u].add(v)", "self._successors[u].update({v})", "R1"),
+    V("augmented union of an adjacency set is reported as unpaired", FILE, f"{G}.add", "self._successors[u].add(v)", "self._successors[u] |= {v}", "R1"),
+    V("replace: adjacency map rebound wholesale outside __init__", FILE, f"{G}.replace", "del self._successors[old_node]",
+      "self._successors = {k: s for k, s in self._successors.items() if k != old_node}", "R1"),
+    V("replace: entry moved with pop() into the new key", FILE, f"{G}.replace", "self._add_node(new_node)",
+      "self._successors[new_node] = self._successors.pop(old_node)\n    self._predecessors[new_node] = set()", "R1"),
     # ---- R2
     V("successors returns the internal set", FILE, f"{G}.successors", "return set(self._successors[node])", "return self._successors[node]", "R2", control=True),
     V("get_nodes returns the keys view", FILE, f"{G}.get_nodes", "return set(self._successors.keys())", "return self._successors.keys()", "R2"),
@@ -1156,6 +1162,11 @@ VARIANTS = [
       "self._successors[new_node] = set(self._successors[old_node])\n    self._predecessors[new_node] = set()\n" + _RP_L1 + _RP_L2_HEAD + "        self._predecessors[new_node].add(pred)\n", None),
     V("benign: predecessor set copied after the successors were rewired", FILE, f"{G}.replace", _RP_HEAD,
       "self._add_node(new_node)\n" + _RP_L1_FULL + "    self._predecessors[new_node] = self._predecessors[old_node].copy()\n" + _RP_L2_HEAD, None),
+    V("benign: edge insertion guarded by a read of the adjacency set (both halves under the same test)", FILE, f"{G}.add",
+      "self._successors[u].add(v)\n        self._predecessors[v].add(u)",
+      "if not self._successors[u].issuperset({v}):\n            self._successors[u].add(v)\n            self._predecessors[v].add(u)", None),
+    V("benign: default of remove_node changed -- no caller in /repo omits the flag there (remove_port passes it explicitly, forwarding kept)", FILE, f"{G}.remove_node",
+      "prune_dead_end: bool=True", "prune_dead_end: bool=False", None),
     V("benign: mirrored statements swapped", FILE, f"{G}.add", "self._successors[u].add(v)\n        self._predecessors[v].add(u)", "self._predecessors[v].add(u)\n        self._successors[u].add(v)", None),
     V("benign: remove <-> discard", FILE, f"{G}.replace", ".remove(old_node)", ".discard(old_node)", None, count=2),
     V("benign: rename loop variables", FILE, f"{G}.remove_nodes", "for succ in self._successors[current]:\n            self._predecessors[succ].discard(current)",
